@@ -23,7 +23,7 @@ type c17Case struct {
 	Len     int64  `json:"payload"` // bytes written before the close
 	Seg     int    `json:"write_size"`
 	Others  int    `json:"other_busy_connections"`
-	Reverse string `json:"reverse"` // "idle" | "busy": the other end is itself writing while the closer closes
+	Reverse string `json:"reverse"`    // "idle" | "busy": the other end is itself writing while the closer closes
 	Hook    string `json:"hook_delay"` // "", "yield", "5ms" at pipe.beforeCloseUp/Down
 	Seed    int64  `json:"seed"`
 }
@@ -264,6 +264,69 @@ func cases(rec *vcommon.Rec, carrier string) []*c17Case {
 	return out
 }
 
+// runLate: the logical connection stays open and silent for longer than every timeout involved in opening
+// it (35 s quick / 65 s thorough); then one end writes its payload and closes: the other end must still get
+// all of it followed by end-of-stream.
+func runLate(rec *vcommon.Rec, carrier, closer string, quiet time.Duration) {
+	c := &c17Case{Carrier: carrier, Closer: closer, Mode: "close-after-" + fmt.Sprint(int(quiet.Seconds())) + "s-of-silence", Len: 262144, Seed: rec.Seed()*10000 + 9000}
+	rec.Mark(c)
+	p, err := e2e.Start(e2e.Options{Carrier: carrier, Tag: "l"})
+	if err != nil {
+		rec.Violation(carrier+":setup-failed", c, err.Error())
+		return
+	}
+	defer p.Close()
+	app, tgt, o, err := p.Open("echo")
+	if err != nil || o != e2e.Done {
+		rec.Inconclusive("late: open failed", c)
+		return
+	}
+	defer app.Close()
+	defer tgt.Close()
+	time.Sleep(quiet)
+	w, r, dir := app, tgt, "c2t"
+	if closer == "target" {
+		w, r, dir = tgt, app, "t2c"
+	}
+	st := &e2e.Stream{Key: uint64(c.Seed) + 1, Len: c.Len, Seg: func() int { return 32768 }}
+	var wf, rf *e2e.Failure
+	wd := e2e.Go(func() {
+		if _, err := e2e.WriteStream(w, st); err != nil {
+			wf = &e2e.Failure{Kind: dir + ":write-error-before-close", Info: map[string]interface{}{"err": err.Error()}}
+			return
+		}
+		w.Close()
+	})
+	rd := e2e.Go(func() {
+		if _, rf = e2e.ReadStream(r, st, nil); rf != nil {
+			rf.Kind = dir + ":" + rf.Kind
+			return
+		}
+		rf = e2e.ExpectEOF(r, dir)
+	})
+	out := e2e.Wait(e2e.Go(func() { <-wd; <-rd }))
+	rec.Case(fmt.Sprintf("late/%s/%s", carrier, closer), out != e2e.Inconclusive)
+	rec.Seen("tuple(carrier,closer,mode,len-class,others,reverse)", fmt.Sprintf("%s|%s|late|%s|0|idle", carrier, closer, lenName(c.Len)))
+	f := wf
+	if f == nil {
+		f = rf
+	}
+	if out == e2e.Stalled && f == nil {
+		f = &e2e.Failure{Kind: dir + ":stalled-before-end-of-stream"}
+	}
+	if out == e2e.Inconclusive {
+		rec.Inconclusive("busy at watchdog", c)
+		return
+	}
+	if f != nil {
+		rec.Violation(fmt.Sprintf("%s:closer=%s:late:%s", carrier, closer, f.Kind), c, f.Info)
+		return
+	}
+	rec.Stat("closes_verified", 1)
+	rec.Stat("late_closes_verified", 1)
+	rec.Stat("bytes_verified_before_eof", c.Len)
+}
+
 func TestVerifC17(t *testing.T) {
 	e2e.Quiet()
 	rec := vcommon.Open()
@@ -288,6 +351,15 @@ func TestVerifC17(t *testing.T) {
 	}
 	if v := os.Getenv("VERIF_CARRIERS"); v != "" {
 		carriers = strings.Split(v, ",")
+	}
+	if os.Getenv("VERIF_C17_NOLATE") == "" && os.Getenv("VERIF_CARRIERS") == "" {
+		// late-close items come after the per-carrier items in the shard numbering
+		late := []struct{ carrier, closer string }{{"tcp", "target"}, {"tcp", "app"}, {"ws", "target"}, {"udp", "target"}, {"tcp+starttls", "app"}}
+		for i, l := range late {
+			if rec.Mine(len(carriers) + i) {
+				runLate(rec, l.carrier, l.closer, time.Duration(rec.Pick(35, 65))*time.Second)
+			}
+		}
 	}
 	for idx, carrier := range carriers {
 		if !rec.Mine(idx) {
